@@ -7,9 +7,11 @@
 (*                                                                         *)
 (* Data (device D1: an integer lattice; the drivers map one unit to a      *)
 (* power of two 2^ue, so the code's arithmetic on coordinates is exact):   *)
-(*   source array  [name, p]   p = Seq(particle)                           *)
-(*   particle      [x, y, z, h, m, rho, f]     integers, h, m, rho >= 1    *)
-(*                 f = value of the interpolated property                  *)
+(*   source array  [name, props, p]   p = Seq(particle), props = the names *)
+(*                 of the user properties ("f", "g") this array HAS        *)
+(*   particle      [x, y, z, h, m, rho, f, g]  integers, h, m, rho >= 1    *)
+(*                 f, g = values of two user properties; interpolate(prop) *)
+(*                 sees, on an array lacking prop, the value 0 (EffParts)  *)
 (*   target point  [x, y, z, h]   h = smoothing length of the point (given *)
 (*                 by the user for SPHEvaluator; the Interpolator sets it  *)
 (*                 itself, see THOpts)                                     *)
@@ -39,6 +41,21 @@ RECURSIVE CatParts(_, _)
 CatParts(S, k) == IF k = 0 THEN <<>> ELSE CatParts(S, k - 1) \o S[k].p
 Parts(S) == CatParts(S, Len(S))                 \* all particles of all arrays
 Names(S) == [k \in 1..Len(S) |-> S[k].name]
+
+\* interpolate(prop): "if prop not in array.properties: data = 0.0" - an
+\* array lacking the property takes part with the value 0 (it still carries
+\* weight in the normalised methods).  EffParts: all particles, with f := the
+\* value interpolate(prop) sees.  prop "f" / "g"; any other name is a
+\* property no array has.
+HasProp(a, prop) == \E i \in 1..Len(a.props) : a.props[i] = prop
+EffArr(a, prop) ==
+    [k \in 1..Len(a.p) |->
+        [a.p[k] EXCEPT !.f = IF ~HasProp(a, prop) THEN 0
+                             ELSE IF prop = "f" THEN a.p[k].f ELSE a.p[k].g]]
+RECURSIVE CatEff(_, _, _)
+CatEff(S, prop, k) ==
+    IF k = 0 THEN <<>> ELSE CatEff(S, prop, k - 1) \o EffArr(S[k], prop)
+EffParts(S, prop) == CatEff(S, prop, Len(S))
 
 RECURSIVE HMaxR(_, _)
 HMaxR(P, k) == IF k = 0 THEN 0 ELSE Max2(P[k].h, HMaxR(P, k - 1))
@@ -322,9 +339,13 @@ AppliedWith(c, P, p, th, lin) ==
 (* Part 6: histories.  A recorded behaviour x:                             *)
 (*   x.cfg  = [method, dim, exact, rs, api, ue, per]                       *)
 (*   x.names0 = names of the source arrays in the order of construction    *)
-(*   x.steps = Seq([act, src, pts, lin, res]) - the abstract state AFTER   *)
-(*   each action (what the driver told the real object) and, for           *)
+(*   x.steps = Seq([act, src, pts, prop, lin, res]) - the abstract state   *)
+(*   AFTER each action (what the driver told the real object); prop = the  *)
+(*   property an Interpolate step asks for, lin = the claimed linear form  *)
+(*   of the field interpolate(prop) sees (checked: SaneState); for         *)
 (*   act = "Interpolate", res[i][j] = recorded component j at point i.     *)
+(*   Successive Interpolate steps may ask for different properties: each   *)
+(*   result must follow ITS property (nothing staged by an earlier call).  *)
 (* Actions: "Reset" (new arrays and new points: construction, or           *)
 (* update_particle_arrays + set_interpolation_points on a live object),    *)
 (* "SetPoints", "UpdateArrays", "MoveUpdate" (positions / h changed in     *)
@@ -337,12 +358,13 @@ Acts == {"Reset", "SetPoints", "UpdateArrays", "MoveUpdate", "SetValues",
 Geo(S) == [a \in 1..Len(S) |-> [k \in 1..Len(S[a].p) |->
              <<S[a].p[k].x, S[a].p[k].y, S[a].p[k].z, S[a].p[k].h>>]]
 Vals3(S) == [a \in 1..Len(S) |-> [k \in 1..Len(S[a].p) |->
-             <<S[a].p[k].m, S[a].p[k].rho, S[a].p[k].f>>]]
+             <<S[a].p[k].m, S[a].p[k].rho, S[a].p[k].f, S[a].p[k].g>>]]
+PropsOf(S) == [a \in 1..Len(S) |-> S[a].props]
 PtsXYZ(T) == [i \in 1..Len(T) |-> <<T[i].x, T[i].y, T[i].z>>]
 SaneState(s) ==
     /\ \A k \in 1..Len(Parts(s.src)) :
           LET q == Parts(s.src)[k] IN q.h >= 1 /\ q.m >= 1 /\ q.rho >= 1
-    /\ s.lin.is => IsLinear(Parts(s.src), s.lin)
+    /\ s.lin.is => IsLinear(EffParts(s.src, s.prop), s.lin)
 \* step k of x is a step of the state machine
 StepOK(x, k) ==
     LET s == x.steps[k]
@@ -357,12 +379,14 @@ StepOK(x, k) ==
                         /\ (x.cfg.api = "interp" \/ s.pts = o.pts)
                  [] s.act = "MoveUpdate" ->
                         s.pts = o.pts /\ Names(s.src) = Names(o.src)
+                        /\ PropsOf(s.src) = PropsOf(o.src)
                         /\ Vals3(s.src) = Vals3(o.src)
                  [] s.act = "SetValues" ->
                         s.pts = o.pts /\ Names(s.src) = Names(o.src)
+                        /\ PropsOf(s.src) = PropsOf(o.src)
                         /\ Geo(s.src) = Geo(o.src)
                  [] s.act = "Interpolate" ->
-                        s.pts = o.pts /\ s.src = o.src /\ s.lin = o.lin
+                        s.pts = o.pts /\ s.src = o.src
                         /\ Len(s.res) = Len(s.pts)
 WellFormed(x) == \A k \in 1..Len(x.steps) : StepOK(x, k)
 
@@ -380,7 +404,8 @@ THOpts(x, k, i) ==
              b == HMax(x.steps[k].src)
          IN IF a = b THEN <<a>> ELSE <<a, b>>
 
-SrcP(x, k) == WithImages(Parts(x.steps[k].src), x.cfg.per)
+SrcP(x, k) == WithImages(EffParts(x.steps[k].src, x.steps[k].prop),
+                         x.cfg.per)
 PointFailed(x, k, i) ==
     LET s == x.steps[k]
         P == SrcP(x, k)
